@@ -4,8 +4,10 @@ Correspondence (impl vs model): whole generated journals; (a) finalize of the jo
 present or elided, its number/decimals/commodity, bare 0, lot price, `@`/`@@`/`(@)`/`(@@)` and the printed cost,
 `= assigned`) against Model/Print.v `decide` on the finalized postings, (c) finalize of the re-read printed journal
 (rows of `reg` on the printed text) against the model's reread+finalize, (d) whether printing the re-read journal
-again gives the same decisions, (e) the postings `equity` emits per account against `equity_account`.
-Oracle (property text, implementation only, Fractions through verif_rational): rows of J (date, aux date, state, code,
+again gives the same decisions, (e) the postings `equity` emits per account against `equity_account`, (f) the number of blanks between the account
+name and the amount in the raw bytes of every printed posting line against `posting_blanks`.
+Oracle (property text, implementation only, Fractions through verif_rational): every printed posting line keeps the account name
+at least two blanks (or a tab) away from the amount; rows of J (date, aux date, state, code,
 payee, account, virtual, note, tags, exact amount, exact cost) equal the rows of `print J` re-read; print(print J) is
 byte-identical to print J; `bal` of the re-read `equity J` equals `bal J` per account and commodity."""
 import re
@@ -18,7 +20,7 @@ META = dict(
     level='proof',
     technique='Coq proof about a model of print_xact\'s per-posting decisions, of the reader on such lines and of posts_as_equity (print shows what was written; re-read of an exactly balanced transaction is accepted with the same exact amounts and costs; the two-posting elision happens only when both postings must balance and is then sound; print never fails; posting marks bring the state back; per-unit and total costs re-read to the same total; printing twice is stable; equity reproduces per-account per-commodity sums) + differential correspondence against ledger + implementation-only round-trip oracle',
     level_text='Theorems in coq/Properties/Properties_C06.v are stated for Model/Print.v: `decide` (post_has_simple_amount, the count == 2 && index == 2 elision, POST_CALCULATED / ITEM_GENERATED suppression, the @ / @@ choice with the printed per-unit cost |given_cost / amount|, state marks, bare 0 for a display-zero amount, read_back = amount_t::print then amount_t::parse at display precision with zero trimming), `reread` (what parse_post makes of such a line) followed by Model/Xact.v `finalize`, and `equity_account`. The model is tied to the code by tokenizing ledger\'s print output into the same decision records and by comparing finalize of the original and of the re-read printed text (exact rationals via the verif_rational hook).',
-    level_note='Trusted: Coq kernel; the MPFR display rounding model Base/Round.v (validated by C04); extraction/driver/harness for the correspondence. Layout (column widths, note placement, blank lines) is not modelled; it is covered by the byte-identity oracle print(print J) == print J only. Amount text <-> amount value is C04\'s subject (AmountText.v); here an amount is printed as the value the reader gets back (read_back). Not modelled: amount expressions `(expr)`, --generated, automated/periodic transactions in print, metadata set programmatically (print.cc:172-183), value-expression annotations, commodity styles beyond prefix/suffix, the iteration order of accounts in equity. Known findings still listed: F8 (zero amount printed as bare 0), F29 (re-read rejected after the commodity precision grew), F30 (equity rounds an inferred amount to display precision), F31 (all-zero transaction not printed). Repaired in /repo and now enforced as violations by the oracle: virtual-pair elision (bcb53b0, old F7), posting mark under a marked transaction (294def6, old F27), zero amount with a per-unit cost (c386080, old F28).',
+    level_note='Trusted: Coq kernel; the MPFR display rounding model Base/Round.v (validated by C04); extraction/driver/harness for the correspondence. Of the layout only the rule that separates account and amount is modelled (account column = max(36, longest printed name), amount right-justified in 12, gap topped up to two blanks; account_width / sep_blanks / posting_blanks, theorem print_separates_account_and_amount) and compared with the raw bytes of every printed posting line; note placement and blank lines are covered by the byte-identity oracle print(print J) == print J only. Amount text <-> amount value is C04\'s subject (AmountText.v); here an amount is printed as the value the reader gets back (read_back). Not modelled: amount expressions `(expr)`, --generated, automated/periodic transactions in print, metadata set programmatically (print.cc:172-183), value-expression annotations, commodity styles beyond prefix/suffix, the iteration order of accounts in equity. Known findings still listed: F8 (zero amount printed as bare 0), F29 (re-read rejected after the commodity precision grew), F30 (equity rounds an inferred amount to display precision), F31 (all-zero transaction not printed). Repaired in /repo and now enforced as violations by the oracle: virtual-pair elision (bcb53b0, old F7), posting mark under a marked transaction (294def6, old F27), zero amount with a per-unit cost (c386080, old F28).',
     design_ref='DESIGN.md section 7 C06',
     assumptions=['journals accepted by ledger (a journal with any error is outside the quantifier; erroneous transactions are dropped by the generator)',
                  'commodities $ EUR AAA BBB CCC without thousands marks or decimal comma (C04 covers styles)',
@@ -244,9 +246,91 @@ def decorate(rng, x, plain=False):
         if p.lot is not None and p.cost is not None and rng.random() < 0.4:
             p.lotdate = rng.choice(LOT_DATES)
             p.lottag = rng.choice(LOT_TAGS)
-        if rng.random() < 0.12 and not p.acct.startswith(('V:', 'BV:', 'Assets:Asg', 'Null:')):
+        if rng.random() < 0.12 and not p.acct.startswith(('V:', 'BV:', 'Assets:Asg', 'Null:', 'x')):
             p.acct = rng.choice(UNUSUAL_ACCTS)
     return x
+
+
+ALPHA = 'abcdefghijklmnopqrstuvwxyzABCDEFGHIJKLMNOPQRSTUVWXYZ'
+
+
+def acct_of_len(rng, n, prefix=''):
+    """an account name of exactly n characters (code points): segments, single blanks, a non-ASCII letter"""
+    s = prefix + rng.choice(['Assets:', 'Expenses:', 'Liabilities:', 'Income:', 'Equity:'])
+    while len(s) < n:
+        r = rng.random()
+        room = len(s) < n - 1
+        if r < 0.08 and room and s[-1] not in ': ':
+            s += ':'
+        elif r < 0.15 and room and s[-1] not in ': ':
+            s += ' '
+        elif r < 0.18:
+            s += 'é'
+        else:
+            s += rng.choice(ALPHA)
+    return s
+
+
+def printed_extra(x, p):
+    """characters print adds around the account name: `* `/`! ` when the posting's state differs from the
+    transaction's, and the () or [] of a virtual posting"""
+    n = 2 if p.kind != 'R' else 0
+    if p.mark and p.mark != x.state:
+        n += 2
+    return n
+
+
+def relayout(rng, x):
+    """rename the accounts so that the printed names sit around print's account column (36, or the longest
+    name of the transaction): the longest exactly at the column C, the others at C-1, C-2, C, C-3 or anywhere in
+    30..C - with the amounts of 9..14 and more characters this reaches every value of slip + amt_slip around 2"""
+    C = rng.choice([36, 36, 36, 36, 36, 37, 38, 40, 43, 45])
+    el = [p for p in x.posts if not p.acct.startswith(('Assets:Asg', 'Null:'))]
+    if not el:
+        return x
+    longest = rng.choice(el)
+    for p in el:
+        if p is longest:
+            t = C if rng.random() < 0.8 else C - 1
+        else:
+            t = rng.choice([C - 1, C - 1, C - 1, C - 2, C, C - 3, rng.randrange(30, C + 1)])
+        prefix = {'R': '', 'V': 'V:', 'B': 'BV:'}[p.kind]
+        p.acct = acct_of_len(rng, max(t - printed_extra(x, p), len(prefix) + 14), prefix)
+    return x
+
+
+def amt_of_width(rng, w):
+    """an amount whose text is w characters long (9..14): `1234.56 EUR`, `$-12345.67`, `123456 AAA`"""
+    for _ in range(50):
+        sym = rng.choice(list(X.COMMS))
+        dec = X.COMMS[sym][1]
+        neg = rng.random() < 0.4
+        fixed = len(sym) + (1 if X.COMMS[sym][0] == 'suf' else 0) + (dec + 1 if dec else 0) + (1 if neg else 0)
+        d = w - fixed
+        if 1 <= d <= 12:
+            n = rng.randrange(10 ** (d - 1), 10 ** d) * 10 ** dec + rng.randrange(10 ** dec)
+            a = X.Amt(F(-n if neg else n, 10 ** dec), dec, sym)
+            if len(a.text()) == w:
+                return a
+    return X.Amt.rand(rng, '$')
+
+
+def gen_layout(rng, st):
+    """2-4 postings of one commodity whose amounts render in 9..14 characters, the last one elided or written"""
+    a = amt_of_width(rng, rng.choice([9, 10, 11, 11, 11, 12, 12, 13, 14]))
+    k = rng.choice([2, 2, 2, 3, 4])
+    vals = [a]
+    for _ in range(k - 2):
+        b = amt_of_width(rng, rng.choice([10, 11, 11, 12, 13]))
+        vals.append(X.Amt(b.value, a.dec, a.sym) if b.dec == a.dec else X.Amt(F(rng.randrange(10 ** 5, 10 ** 7), 10 ** a.dec), a.dec, a.sym))
+    kind = rng.choice(['R', 'R', 'R', 'B'])
+    ps = [XPost('x', kind, v) for v in vals]
+    tot = sum(v.value for v in vals)
+    ps.append(XPost('x', kind, None if rng.random() < 0.5 else X.Amt(-tot, a.dec, a.sym)))
+    if rng.random() < 0.3:
+        ps.append(XPost('x', 'V', amt_of_width(rng, rng.choice([10, 11, 12]))))
+    rng.shuffle(ps)
+    return XXact(ps)
 
 
 def gen_xact(rng, st):
@@ -269,7 +353,13 @@ def gen_xact(rng, st):
         x = gen_zero_cost(rng, st)
     else:
         x = upgrade(X.gen_balanced(rng, ncomm=3))
-    return decorate(rng, x)
+    if rng.random() < 0.1:
+        x = gen_layout(rng, st)
+        return relayout(rng, decorate(rng, x))
+    x = decorate(rng, x)
+    if rng.random() < 0.3:
+        x = relayout(rng, x)
+    return x
 
 
 def gen_journal(rng):
@@ -439,6 +529,53 @@ def tokenize_print(text):
     return res
 
 
+def posting_lines(text):
+    """ledger's print output -> {xact index: [raw posting line, ...]} (note lines left out)"""
+    res, cur = {}, None
+    for line in text.split('\n'):
+        if not line.strip():
+            cur = None
+        elif not line.startswith(' '):
+            m = re.search(r'\bx(\d+)', line)
+            cur = int(m.group(1)) if m else None
+            if cur is not None:
+                res[cur] = []
+        elif cur is not None and not line.lstrip().startswith(';'):
+            res[cur].append(line)
+    return res
+
+
+def measure_line(line, p):
+    """one printed posting line against the posting it was printed for ->
+    (ok name, printed name length, blanks after the name, amount text length, separated)"""
+    body = line[4:]
+    mark = ''
+    if body.startswith(('* ', '! ')):
+        mark, body = body[:2], body[2:]
+    name = {'R': '%s', 'V': '(%s)', 'B': '[%s]'}[p.kind] % p.acct
+    if not body.startswith(name):
+        return (False, 0, 0, 0, False)
+    rest = body[len(name):]
+    separated = (rest == '' or rest.startswith('  ') or rest.startswith('\t'))
+    blanks = len(rest) - len(rest.lstrip(' '))
+    content = rest.lstrip(' ')
+    if content.startswith(';'):
+        return (True, len(mark) + len(name), blanks - 2, 0, separated)
+    content = re.split(r'\s\s;', content, 1)[0].rstrip()
+    alen = 0
+    if content:
+        parts = split_amount_expr(content)
+        alen = len((parts['amt'] or '') + parts['ann'])
+    return (True, len(mark) + len(name), blanks, alen, separated)
+
+
+def differs_by_padding_only(t1, t2):
+    """the two print outputs differ only by blanks at the end of posting lines (before a note or the line end): finding F50"""
+    l1, l2 = t1.split('\n'), t2.split('\n')
+    unpad = lambda l: re.sub(r' +(  ;.*)?$', lambda m: m.group(1) or '', l)
+    return len(l1) == len(l2) and all(a == b or (a.startswith('    ') and unpad(a) == unpad(b)) for a, b in zip(l1, l2))
+
+
 def parse_bal(out):
     """bal --flat rows -> {(account, base commodity): Fraction} without zero entries (lots merged)"""
     tot = {}
@@ -563,7 +700,7 @@ def classify_row_diff(field, a, b, x=None, k=None):
     return 'reread-rows:' + field
 
 
-def run_one(ctx, res, j, xs, text, path, out_reg, model):
+def run_one(ctx, res, j, xs, text, path, out_reg, model, layout_cases, idem_cases):
     jid = 'j%d' % j
     rows = parse_rows(out_reg)
     case = dict(journal=text)
@@ -607,6 +744,33 @@ def run_one(ctx, res, j, xs, text, path, out_reg, model):
         res.disagreements.append(dict(name='C06/print-error', case=text, impl='print succeeds', model=mm[model_perr[0]][0]))
         return
     toks = tokenize_print(Ptext)
+    # ---- oracle 0 (journal syntax): in every printed posting line the account name is followed by nothing, by two
+    # blanks or by a tab - with less the reader takes the amount for a part of the account name.  The same pass
+    # collects the raw layout of the line for the correspondence with Model/Print.v sep_blanks.
+    plines = posting_lines(Ptext)
+    pad_lines = []
+    for i, x in enumerate(xs):
+        ls = plines.get(i)
+        if ls is None or len(ls) != len(x.posts):
+            continue
+        meas = [measure_line(l, p) for l, p in zip(ls, x.posts)]
+        for (okn, nlen, blanks, alen, sep), l, p in zip(meas, ls, x.posts):
+            if not okn:
+                res.violations.append(dict(key='print-line:account-name', desc='x%d: the line %r does not show the account %r' % (i, l, p.acct),
+                                           case=dict(journal=text, printed=Ptext, xact=i), observed=l, required=p.acct))
+            elif not sep:
+                res.violations.append(dict(key='print-line:account-amount-separator',
+                                           desc='x%d: fewer than two blanks between the account name and the amount in %r' % (i, l),
+                                           case=dict(journal=text, printed=Ptext, xact=i), observed=l,
+                                           required='account name, then at least two blanks or a tab, then the amount'))
+        if all(m[0] for m in meas):
+            layout_cases.append(('%sx%d' % (jid, i), [(m[1], m[3], p.amt is None and p.computed is None) for m, p in zip(meas, x.posts)],
+                                 [m[2] for m in meas], x.text(i), ls))
+            pad_lines += [('%sx%d' % (jid, i), k) for k, (m, p) in enumerate(zip(meas, x.posts)) if m[3] == 0 and not (p.amt is None and p.computed is None)]
+            w = max([36] + [m[1] for m in meas])
+            for m in meas:
+                gap = (w - m[1]) + (max(0, 12 - m[3]) if m[3] else 0)
+                res.count('layout:gap-%s%s' % ('amount' if m[3] else 'elided', '=%d' % gap if gap < 4 else '>=4'))
     st2, out2, err2 = lib.run_ledger(['-f', ppath, 'reg', '--empty', '--no-rounding', '--format', FMT] + NOW)
     rows2 = parse_rows(out2)
     errs2 = X.parse_errors(err2, ppath, None) if err2.strip() else {}
@@ -645,16 +809,16 @@ def run_one(ctx, res, j, xs, text, path, out_reg, model):
                                           model=[(k, mm[k][0]) for k in mod_fail]))
         if reread_ok and st3 == 0 and not od:
             mod_same = all(mm.get((i, 'I'), ['SAME'])[0] == 'SAME' for i in range(len(xs)))
-            if mod_same != (P2 == P):
-                res.disagreements.append(dict(name='C06/idempotent', case=text, impl='print(print J) %s print J' % ('==' if P2 == P else '!='),
-                                              model=[(i, mm.get((i, 'I'))) for i in range(len(xs))]))
+            # the bytes also depend on the padding after an amount print left out (finding F50): decided once the
+            # layout model has run
+            idem_cases.append((text, P2 == P, mod_same, pad_lines, [(i, mm.get((i, 'I'))) for i in range(len(xs))]))
     # ---- oracle 1: the rows of J equal the rows of the re-read print
     nontrivial = False
     if not reread_ok:
         virt_pair = any(len(x.posts) == 2 and all(p.kind == 'V' and p.amt is not None for p in x.posts) for x in xs)
         msg = err2.decode('utf-8', 'replace')
         cls = 'NullLeft' if 'There cannot be null amounts after balancing' in msg else \
-            'Unbalanced' if 'does not balance' in msg else 'Other'
+            'Unbalanced' if 'does not balance' in msg else 'TwoNulls' if 'Only one posting with null amount' in msg else 'Other'
         inexact = any(p.cost and p.cost[0] == 'u' and p.cost[1].dec > X.COMMS[p.cost[1].sym][1] for x in xs for p in x.posts)
         res.violations.append(dict(
             key='reread-fails:' + cls + (':virtual-pair-elided' if (virt_pair and cls == 'NullLeft') else '') +
@@ -691,7 +855,8 @@ def run_one(ctx, res, j, xs, text, path, out_reg, model):
                                                    case=dict(journal=text, printed=Ptext, xact=i), observed=show_kq(vb), required=show_kq(va)))
         # ---- oracle 2: print is idempotent, byte for byte
         if st3 != 0 or P2 != P:
-            res.violations.append(dict(key='print-not-idempotent', desc='print(print J) differs from print J',
+            only_padding = st3 == 0 and differs_by_padding_only(Ptext, P2.decode('utf-8', 'replace'))
+            res.violations.append(dict(key='print-not-idempotent' + (':padding-after-omitted-amount' if only_padding else ''), desc='print(print J) differs from print J',
                                        case=dict(journal=text, printed=Ptext), observed=P2.decode('utf-8', 'replace')[:2000], required=Ptext[:2000]))
     if nontrivial:
         for i, x in enumerate(xs):
@@ -786,7 +951,7 @@ def run(ctx, n_override=None):
                 'different written precision, equal lots, first/second elided in the source, costs, implied rate, zero amounts), exactly '
                 'balanced multi-commodity transactions with @/@@/(@) costs and virtual postings, one elided amount, excess-precision per-unit '
                 'costs at the half-unit boundary, lot sales with {price} [date] (tag), balance assignments/assertions, `0 X @ price`; '
-                'decorated with states on transactions and postings (also a posting mark that differs from the mark of its transaction), codes, auxiliary dates, notes, tags, key: value metadata and unusual '
+                'account names of 30..45 characters placed around the account column of print (column-3 .. column+0, the longest at the column) with amounts of 9..14 and more characters, so that every gap 0..3 between name and amount occurs; decorated with states on transactions and postings (also a posting mark that differs from the mark of its transaction), codes, auxiliary dates, notes, tags, key: value metadata and unusual '
                 'payee/account text; non-trivial = a transaction with at least one such feature in a journal whose printed text re-reads; '
                 'distinct by rendered transaction text')
     n = n_override or ctx.scale(130, 600)
@@ -802,11 +967,28 @@ def run(ctx, n_override=None):
     if bad:
         res.disagreements.append(dict(name='C06/driver', case=None, impl=None, model=bad[:3]))
     eq_cases = []
+    layout_cases = []
+    idem_cases = []
     for j, xs, text, path, out in journals:
         open(path, 'w').write(text)
-        rows = run_one(ctx, res, j, xs, text, path, out, model)
+        rows = run_one(ctx, res, j, xs, text, path, out, model, layout_cases, idem_cases)
         if rows is not None:
             run_equity(ctx, res, j, xs, text, path, rows, eq_cases)
+    if layout_cases:
+        lm = {}
+        for l in lib.run_model('C06', [lib.sx(['layout', c[0]] + [[n, a, c_] for (n, a, c_) in c[1]]) for c in layout_cases]):
+            p = l.split(' ')
+            if len(p) >= 3 and p[1] == 'W':
+                lm[p[0]] = [int(v) for v in p[3:]]
+        for (lid, na, blanks, xt, ls) in layout_cases:
+            res.traces += 1
+            if lm.get(lid) != blanks:
+                res.disagreements.append(dict(name='C06/print-layout', case=xt, printed=ls, impl=blanks, model=lm.get(lid)))
+        for (text, impl_same, mod_same, pad_lines, detail) in idem_cases:
+            padded = [(lid, k) for (lid, k) in pad_lines if lid in lm and lm[lid][k] != 0]
+            if (mod_same and not padded) != impl_same:
+                res.disagreements.append(dict(name='C06/idempotent', case=text, impl='print(print J) %s print J' % ('==' if impl_same else '!='),
+                                              model=dict(decisions=detail, padded_lines=padded)))
     if eq_cases:
         em = lib.run_model('C06', [c[0] for c in eq_cases])
         got = {}
@@ -853,4 +1035,19 @@ def replay(ctx, obj):
         print(err2.decode('utf-8', 'replace')[:1000])
         if st != 0 or st2 != 0:
             res.violations.append(dict(key='replay', desc='print or its re-read fails', case=case, observed=(st, st2), required='0, 0'))
+        else:
+            st1, out1, err1 = lib.run_ledger(['-f', path, 'reg', '--empty', '--no-rounding', '--format', FMT] + NOW)
+            r1, r2 = parse_rows(out1), parse_rows(out2)
+            sig = lambda rows: [[(r['acct'], r['virtual'], r['cleared'], r['pending'], show_kq(r['amt']), show_kq(r['cost'])) for r in rows[i]]
+                                for i in sorted(rows)]
+            if sig(r1) != sig(r2):
+                diff = [(a, b) for a, b in zip(sum(sig(r1), []), sum(sig(r2), [])) if a != b][:4]
+                print('rows differ:', diff)
+                res.violations.append(dict(key='replay-rows', desc='the re-read rows differ from the original: %s' % diff, case=case,
+                                           observed=str(diff), required='equal rows'))
+            st3, P2, err3 = lib.run_ledger(['-f', ppath, 'print'] + NOW)
+            if P2 != P and not differs_by_padding_only(P.decode('utf-8', 'replace'), P2.decode('utf-8', 'replace')):
+                print('print(print J) != print J')
+                res.violations.append(dict(key='replay-idempotent', desc='print(print J) differs from print J', case=case,
+                                           observed=P2.decode('utf-8', 'replace')[:500], required=P.decode('utf-8', 'replace')[:500]))
     return res
